@@ -103,3 +103,10 @@ def search(ctx):
 def replay(ctx, case):
     from harness.props import c17_eval
     return c17_eval.replay(ctx, case)
+
+
+MANIFEST = dict(
+    text='Proof (FULL for the classical-pattern variant): for every n>=1, placement, pattern and memory state the gate list of the model leaves amplitude cos(pi d/2n) a_k on aux=0 and -i sin(pi d/2n) a_k on aux=1 (C17_pqm_amplitudes); hence P(aux=0,k) = |a_k|^2 cos^2 and the memory marginal is unchanged (C17_probabilities). Tie: the gate list appended by pqm.initialize is compared inside Coq with PqmModel.pqm_gates (both variants), n<=8/20. The quantum-pattern variant and exact marginals are evaluated.',
+    note='Modelled, not verified: Qiskit h/x/cx/p/cp matrices (validated per run); quantum-pattern variant evaluated only.',
+    technique='Coq proof (diagonal-layer semantics, induction on n) + gate-list correspondence (vm_compute) + exact marginal evaluation',
+    design_ref='DESIGN.md section 4, C17')
